@@ -49,13 +49,27 @@ ObsMatch(e) ==
   /\ e.ret.set = AscSeq(ret.set)          \* results come in instance order
   /\ e.end => Terminated
 
+(* Partial-order reduction of the unobserved steps.  Only the existence of an accepting path matters:  *)
+(*  - Begin(j) changes st[j] and calls[j] only, nothing else reads them before the next observation, and *)
+(*    it stays enabled until taken: in any accepting path it can be postponed until every lower-numbered *)
+(*    goroutine has left "released" (by Begin or Abort) - so Begins are explored in index order only;    *)
+(*  - once the call has returned, the order in which aborting goroutines post to resultsChan is          *)
+(*    irrelevant (the drain goroutine only counts them): Aborts are explored in index order there.       *)
+(* Begin versus Abort of the SAME goroutine (the select race) and everything the main loop reads stay    *)
+(* unreduced.                                                                                            *)
+IntNextR ==
+  \/ \E i \in Inst : Begin(i) /\ \A k \in 1..(i-1) : st[k] # "released"
+  \/ \E i \in Inst : Abort(i) /\ (mainPc = "returned" => \A k \in 1..(i-1) : ~AbortEnabled(k))
+  \/ MainNext
+  \/ Drain
+
 TNext ==
   /\ l <= Len(T.steps)
   /\ tr' = tr
   /\ LET e == T.steps[l]
      IN \/ /\ e.a = "obs" /\ Quiet /\ ObsMatch(e)
            /\ l' = l + 1 /\ UNCHANGED vars
-        \/ /\ e.a = "obs" /\ IntNext /\ l' = l
+        \/ /\ e.a = "obs" /\ IntNextR /\ l' = l
         \/ /\ e.a = "finish" /\ Finish(e.i, e.o) /\ l' = l + 1
         \/ /\ e.a = "adv" /\ Advance /\ l' = l + 1
         \/ /\ e.a = "cancel" /\ ParentCancel /\ l' = l + 1
